@@ -42,7 +42,7 @@ MANIFEST = dict(
 REQUIRED = ["Xmp.TestLoad." + n for n in (
     "C11_agree", "C11_agree_wrappers", "C11_agree_needs_nonpos", "C11_strings_failure", "C11_strings_success",
     "C11_strings_success_partial", "C11_strings_counterexample", "C11_strings_wrapper_counterexample",
-    "C11_strings_wrappers_partial", "C11_strings_wrappers", "C11_title", "C11_title_buffers", "C11_title_raw", "C11_title_exact",
+    "C11_strings_wrappers_partial", "C11_strings_wrappers", "C11_title", "C11_title_strict", "C11_title_buffers", "C11_title_raw", "C11_title_exact",
     "C11_no_side_effect", "C11_no_leak", "C11_no_close_mem_cb", "C11_codes_distinct", "C11_prepare_scan_codes",
     "C11_table_names")]
 
@@ -329,7 +329,7 @@ def eval_titles(ck, items):
     if not uniq:
         return {}
     outl = vlib.run_driver("drv_c11", "".join("tm %s %s\n" % (t or "-", l or "-") for t, l in uniq))
-    return {k: o.split(" ")[1] == "1" for k, o in zip(uniq, outl)}
+    return {k: (o.split(" ")[1] == "1", o.split(" ")[4] == "1") for k, o in zip(uniq, outl)}
 
 
 def judge_files(ck, files, exe_name, stats, msan=False):
@@ -399,7 +399,10 @@ def judge_files(ck, files, exe_name, stats, msan=False):
                 stats["title_pairs_nonempty"] += 1
             if hexb(th) != hexb(lh):
                 stats["title_pairs_differ_bytes"] += 1
-            if verdict.get((th, lh), True):
+            canon_ok, strict_ok = verdict.get((th, lh), (True, True))
+            # ProWizard detectors report the raw bytes (pw_read_title): canonical form only; everybody else went
+            # through libxmp_copy_adjust / libxmp_adjust_string on both sides: no trailing blanks either
+            if canon_ok and (strict_ok or ft in PWNAMES):
                 continue
             ck.violation(title_signature(ft, False, hexb(th), hexb(lh)), replay_obj(exe_name, fname, variant, pair),
                          "%s [%s] %s: test title %r does not match loaded title %r (type '%s')" % (
